@@ -1396,4 +1396,17 @@ func (w *vrWorld) resolveOnChain() {
 	w.em.Count(fmt.Sprintf("resolve-on-chain:resolved=%d", n))
 }
 
+// rejectUnconfirmed: RejectContracts at a height far above every negotiation height (not a model
+// step: the model has no chain status).
+func (w *vrWorld) rejectUnconfirmed() bool {
+	_, err, pan := vrCall(func() error {
+		return w.store.UpdateChainState(func(tx index.UpdateTx) error {
+			_, _, err := tx.RejectContracts(1 << 40)
+			return err
+		})
+	})
+	w.em.Count(fmt.Sprintf("reject-unconfirmed:ok=%v", err == nil && pan == nil))
+	return err == nil && pan == nil
+}
+
 func proto4Usage() proto4.Usage { return proto4.Usage{} }
